@@ -195,12 +195,16 @@ def run_marg(ctx, case):
     n, keep = case['n'], case['keep']
     ctx.note(klass='marginal', desc=[n, keep], nontrivial=not _contig(keep), labels=[f'n={n}'])
     r = ref.rng(case['prng'])
-    for kind in (0, 1):
-        psi = _state(r, n, kind)
+    for kind in (0, 1, 2, 3):
+        psi = _state(r, n, kind % 2)
+        if kind >= 2:
+            psi = psi * (0.5 if kind == 2 else 3.0)  # an unnormalised vector (e.g. after a non-unitary operator): the marginals are the squared moduli, summing to |psi|^2
+        psi_before = psi.copy()
         got = nq.sim.state.reduce_to_probability(psi, set(keep))
         want = ref.born_marginal(psi, n, keep)
         ctx.require(got.shape == (2 ** len(keep),), 'marginal shape')
-        ctx.close(got, want, 1e-12, 'reduce_to_probability = Born marginal')
+        ctx.close(got, want, 1e-12, 'reduce_to_probability = Born marginal (sum of squared moduli over the other qubits)', max(1.0, float(np.vdot(psi, psi).real)))
+        ctx.close(psi, psi_before, 0, 'reduce_to_probability does not modify the state')
         ctx.tick()
 
 
